@@ -80,10 +80,32 @@ def install_io(it):
     def yload(interp, f, Loader=None, **kw):
         if not isinstance(f, FileV) or f.name not in interp.fs:
             raise PyRaise(mk_exc_("FileNotFoundError", "no such file"))
+        # PyYAML contract per loader class: only the unrestricted loaders (Loader / UnsafeLoader and their C twins) construct everything yaml.dump emits; the Full loaders
+        # refuse python/object/apply nodes (how numpy scalars and arrays are written), the Safe / Base loaders refuse python/tuple as well.  A symbolic parameter stands for
+        # ANY float-like value the caller may have passed, a numpy scalar included.
+        lname = str(getattr(Loader, "name", Loader)).rsplit(".", 1)[-1]
+        if lname not in ("Loader", "UnsafeLoader", "CLoader", "CUnsafeLoader"):
+            def restricted(v):
+                if isinstance(v, dict):
+                    return any(restricted(k) or restricted(x) for k, x in v.items())
+                if isinstance(v, (list, tuple)):
+                    return (isinstance(v, tuple) and lname not in ("FullLoader", "CFullLoader")) or any(restricted(x) for x in v)
+                return isinstance(v, (tm.T, np.ndarray, np.generic))
+            if restricted(interp.fs[f.name]):
+                raise PyRaise(mk_exc_("Exception", "yaml.constructor.ConstructorError: yaml.%s cannot construct a node yaml.dump wrote (numpy scalar / array / tuple)" % lname))
         return yaml_copy(interp.fs[f.name])
     it.externals["yaml.dump"] = ydump
     it.externals["yaml.load"] = yload
-    it.externals["joblib.load"] = lambda interp, name: interp.fs["joblib:" + name] if ("joblib:" + name) in interp.fs else (_ for _ in ()).throw(PyRaise(mk_exc_("FileNotFoundError", name)))
+    def jload(interp, name, mmap_mode=None):
+        """joblib.load contract: the stored object; with mmap_mode set, its arrays are views of the FILE (a later rewrite of the file changes the loaded object) —
+        recorded in interp.joblib_mmap for the ownership obligation of load_cider_model."""
+        if ("joblib:" + name) not in interp.fs:
+            raise PyRaise(mk_exc_("FileNotFoundError", name))
+        if not hasattr(interp, "joblib_mmap"):
+            interp.joblib_mmap = []
+        interp.joblib_mmap.append(mmap_mode)
+        return interp.fs["joblib:" + name]
+    it.externals["joblib.load"] = jload
 
 
 def mk_exc_(name, *a):
@@ -225,7 +247,7 @@ def unit_featlist(ctx):
                 ctx.holds("featlist[%s].element%d(%s)-equal" % (label, i, a.cls.name), isinstance(b, Obj) and a.cls is b.cls and deep_equal(a.fields, b.fields), "", fq)
     rp = all_paths(it, lambda: it.call(it.getattr(FL, "load"), ["does-not-exist.yaml"], {}))
     ctx.holds("featlist.load-missing-file-is-an-error", all(p[0] == "raise" for p in rp), "", fq[3:])
-    ctx.assume("yaml.dump followed by yaml.load (Loader / CLoader) is the identity on values built from dict/list/tuple/str/int/float/bool/None/ndarray (PyYAML contract); same for joblib")
+    ctx.assume("yaml.dump followed by yaml.load is the identity on values built from dict/list/tuple/str/int/float/bool/None/ndarray/numpy scalars for the unrestricted loaders (Loader, UnsafeLoader, CLoader, CUnsafeLoader); the Full loaders raise on numpy scalars / arrays, the Safe / Base loaders also on tuples (PyYAML contract); same for joblib")
 
 
 def replay_featlist(wit):
@@ -234,10 +256,20 @@ def replay_featlist(wit):
     objs = []
     for cls in td.ALL_CLASSES:
         names = [n for n in inspect.signature(cls.__init__).parameters][1:]
-        objs.append(cls(*[(k + 1) if n in INDEX_NAMES else 0.37 + 0.1 * k for k, n in enumerate(names) if n != "bounds"]))
+        objs.append(cls(*[(k + 1) if n in INDEX_NAMES else np.float64(0.37 + 0.1 * k) for k, n in enumerate(names) if n != "bounds"]))
     fl = td.FeatureList(objs)
     try:
+        import os
+        import tempfile
         fl2 = td.FeatureList.from_dict(fl.as_dict())
+        # the file cycle too, with numpy-scalar parameters (what a fitted model carries)
+        d_ = tempfile.mkdtemp()
+        try:
+            fl.dump(os.path.join(d_, "fl.yaml"))
+            fl2 = td.FeatureList.load(os.path.join(d_, "fl.yaml"))
+        finally:
+            import shutil
+            shutil.rmtree(d_, ignore_errors=True)
         x = np.random.RandomState(0).rand(7, 10) + 0.1
         return {"reproduced": bool(not np.array_equal(fl(x), fl2(x)))}
     except Exception as e:
@@ -295,6 +327,37 @@ def unit_spline(ctx):
     ctx.assume("numba cubic-spline evaluation (interpolation.splines) is a function of (grid, coefficients, X, N): uninterpreted")
 
 
+def replay_load_ownership(wit):
+    """Native: dump a model with joblib, load it through load_cider_model, rewrite the file with different numbers, compare the loaded model's arrays with a copy taken
+    right after loading."""
+    from pyvc import native
+    native.install_shim()
+    import os
+    import shutil
+    import tempfile
+    import joblib
+    from ciderpress.dft.model_utils import load_cider_model
+    from ciderpress.dft.xc_evaluator import MappedXC, KernelEvalBase  # noqa: F401
+    d_ = tempfile.mkdtemp()
+    try:
+        m = MappedXC.__new__(MappedXC)
+        m.payload = np.arange(4000, dtype=np.float64)
+        path = os.path.join(d_, "m.joblib")
+        joblib.dump(m, path)
+        got = load_cider_model(path, "joblib")
+        before = np.array(got.payload, copy=True)
+        mapped = isinstance(got.payload, np.memmap)
+        m.payload = m.payload[::-1].copy()
+        try:
+            joblib.dump(m, path)
+        except Exception:
+            pass
+        changed = bool(not np.array_equal(np.asarray(got.payload), before))
+        return {"reproduced": bool(mapped or changed), "loaded arrays are memory maps of the file": mapped, "changed by rewriting the file": changed}
+    finally:
+        shutil.rmtree(d_, ignore_errors=True)
+
+
 def unit_load_model(ctx):
     it = ctx.interp
     install_io(it)
@@ -335,7 +398,13 @@ def unit_load_model(ctx):
         o, v, _, _ = rp[0]
         ok = (o == "return" and v is obj) if what in ("good1", "good2") else (o == "raise" and isinstance(v, ExcV) and v.cls.name == "ValueError")
         ctx.holds("load-object[%s]" % what, ok, "outcome %s %s" % (o, v), fq)
-    ctx.assume("yaml.load / joblib.load return the stored object (library contracts); format strings and file names are enumerated over representatives of each branch of load_cider_model (exhaustive over its comparisons)")
+    # ownership: a model loaded from a joblib file must not share storage with the file (joblib.load(mmap_mode=...) returns views of the file, so rewriting the
+    # file — saving an updated model under the same name — would change a model already loaded)
+    modes = list(getattr(it, "joblib_mmap", []))
+    ctx.holds("load: the joblib branch was exercised (vacuity guard)", len(modes) > 0, "", fq)
+    ctx.holds("load: a model loaded from a joblib file owns its arrays (no memory mapping of the file)", all(m is None for m in modes), "joblib.load called with mmap_mode=%s" % sorted(set(str(m) for m in modes if m is not None)), fq,
+              replay=replay_load_ownership)
+    ctx.assume("yaml.load / joblib.load return the stored object (library contracts; with mmap_mode set joblib returns views of the file); format strings and file names are enumerated over representatives of each branch of load_cider_model (exhaustive over its comparisons)")
 
 
 AMOD = "ciderpress.pyscf.analyzers"
